@@ -105,7 +105,7 @@ def custom(tier, seed):
         # natively, through the public API: lint (all reads of one analysis) vs fresh queries, canonical namings
         n = 0
         for sh in shapes:
-            for part in list(family.partitions(sh.slots))[:8]:
+            for part in family.var_partitions(sh, 8):
                 if tharness.compiles(sh, part, []):
                     r = tharness.native_order_case(sh, part, [], sh.reads())
                     n += 1
